@@ -34,6 +34,29 @@ Calibration
 * Generator objects are stateful: calling one generator twice gives two different arrays by design, so
   "same seed" always means a fresh generator object.
 
+* Parameter audit: a population of more than 40 members is held as int64 (its members must be pairwise distinct, int8
+  wraps around); NumPy's RandomState.random_integers converts its bounds with int(), multinomial / multivariate_
+  hypergeometric take vector parameters: no array-valued parameters for these; a nested list cannot express a
+  zero-length later axis (permutation of a list input).
+* Labels of the audit findings are per mechanism, not per API / family: ``wrap:Generator.integers:array-valued-high:*``,
+  ``wrap:multivariate_hypergeometric:result-axis-not-declared``, ``permutation:array-like-input:*``.
+
+Parameter audit (input classes added after the seeded-defect rounds; each has a counter with a floor):
+every distribution method of both APIs (38 methods, incl. multinomial's extra axis, RandomState-only random_integers /
+tomaxint / random, Generator-only multivariate_hypergeometric); an array-valued parameter at ANY position (NumPy or dask
+array over the trailing axes, optionally with length-1 axes that broadcast), parameters by keyword; size as int / list /
+None (0-d, or inferred from a full-size array parameter); chunks as tuple of ints / -1 / bytes string / dict / explicit
+irregular with >= 3 blocks / blocks of more than 255 elements; integers/randint dtype=, the one-argument form, endpoint=;
+seed forms (int beyond 2**64, array_like, SeedSequence, BitGenerator PCG64 / MT19937 / Philox, a NumPy Generator;
+RandomState: array_like, an object re-seeded through .seed() after use; da.random.seed(array_like)); STATE: 1-3 arrays
+drawn from the same generator object (and a refused call) before the array under test, replayed identically in the
+rebuild; choice: p as list / dask array with several blocks, size as int / None, axis=0 / shuffle=False keywords,
+populations of 300 members, 3-d samples without replacement, the seeded sample without replacement rebuilt from a fresh
+generator, the NotImplementedError refusal observed per (API, population kind, split axis); permutation of NumPy arrays /
+lists / 3-d dask arrays with irregular first-axis chunks.  Sibling parameters added: replace, integers dtype, the values
+of an array-valued parameter; Generator.choice takes part in the sibling facet (its draws are a function of the graph
+since the recompute fix).
+
 Sibling facet (vf/mon/siblings.py): every case is also built a second time with ONE result-relevant parameter changed
 (seeded arrays only: same seed and another distribution parameter / size / chunks / dtype / endpoint / p).
 The two lazily built collections must not share output keys unless their stand-alone values are equal (label
@@ -53,8 +76,10 @@ from ..mon import siblings as S
 from ..mon.compare import compare_arrays
 
 PROP = "C28"
-RULE = ("cases = seeded (API Generator|RandomState|module, distribution of 13, parameters incl. NumPy/dask array "
-        "parameters, size 0-3 d with lengths 0-6, explicit/int/auto chunks, seed, second scheduler threads|processes), "
+RULE = ("cases = seeded (API Generator|RandomState|module, every distribution method (38), parameters incl. NumPy/dask array "
+        "parameters at any position / by keyword, size 0-3 d with lengths 0-6 (tuple|int|list|None) and long axes with blocks > 255, "
+        "explicit/irregular/int/tuple/-1/bytes/dict/auto chunks, seed in every documented form, arrays drawn from the generator "
+        "before, second scheduler threads|processes), "
         "unseeded pairs (creation mode x distribution x size x chunks x scheduler) and choice(replace=False)/permutation "
         "(population int|numpy|dask, size int|tuple up to and beyond the population, p, chunks). non-trivial = the array has "
         ">= 2 chunks (seeded/unseeded/permutation) or the sample has >= 2 elements (choice); distinct = distinct case "
@@ -339,14 +364,14 @@ def _wrapped_extras(rng, d, dist, api, shape):
             d["idtype"] = rng.choice(("int8", "uint8", "int32", "uint64", "int16"))
             lo = rng.choice((0, 3))
             d["P"] = {"low": lo, "high": lo + rng.choice((1, 2, 10, 100))}
-        if rng.random() < 0.12 and not d.get("arr"):
+        if rng.random() < 0.2 and not d.get("arr"):
             d["hnone"] = True           # integers(high) / randint(high): the one-argument form
             d["P"] = {"low": max(d["P"]["high"], 1), "high": None}
     # size forms: tuple (default), int for 1-d, list, None (0-d, or the shape of a full-size array parameter)
     u = rng.random()
     if len(shape) == 1 and u < 0.25:
         d["sform"] = "int"
-    elif shape and u < 0.35:
+    elif shape and u < (0.35 if len(shape) == 1 else 0.15):
         d["sform"] = "list"
     elif u < 0.6 and (not shape or (d.get("arr") and d["arr"]["drop"] == 0 and not any(d["arr"]["ones"]))):
         d["sform"] = "none"
@@ -360,8 +385,9 @@ def _wrapped_extras(rng, d, dist, api, shape):
 def cases(tier, seed):
     rng = random.Random(seed * 6151 + 28)
     n = 3000 if tier == "quick" else 27000
-    pool = OLD * 3 + [d for d in DISTS if d not in OLD]
-    upool = [d for d in OLD if d not in ("choice", "permutation")] * 3 + [d for d in WRAPPED if d not in OLD] + ["choice"] * 5 + ["permutation"] * 2
+    pool = OLD * 3 + [d for d in DISTS if d not in OLD] + ["integers"] * 5 + ["choice"] * 3
+    upool = ([d for d in OLD if d not in ("choice", "permutation")] * 3 + [d for d in WRAPPED if d not in OLD] + ["choice"] * 6
+             + ["permutation"] * 2 + ["integers"] * 3)
     for i in range(n):
         u = rng.random()
         if u < 0.52:
@@ -420,7 +446,7 @@ def cases(tier, seed):
             else:
                 a = rng.randint(1, max(1, n_pop // 2))
                 size = [a, rng.randint(1, max(1, n_pop // a))]
-                if n_pop >= 8 and rng.random() < 0.3:
+                if n_pop >= 6 and rng.random() < 0.55:
                     # 3-d sample: only the last axis (or a middle one) may be split below
                     b_ = rng.randint(1, max(1, n_pop // (a * 2)))
                     size = [a, b_, max(1, n_pop // (a * b_))]
@@ -468,7 +494,7 @@ def _perm_input(rng):
         return {"x": {"kind": "int", "n": rng.choice((0, 1, 2, 5, 9, 300))}}
     shape = A.rand_shape(rng, maxnd=3, maxlen=7, minnd=1)
     c = [list(c) for c in A.rand_chunks(rng, shape)]
-    if shape[0] >= 4 and rng.random() < 0.3:
+    if shape[0] >= 4 and rng.random() < 0.5:
         c[0] = _irr3(rng, shape[0])
     # numpy / list: NumPy's documented array_like input (a dask array is the usual one)
     return {"x": {"kind": rng.choice(("dask", "dask", "dask", "dask", "numpy", "list")), "shape": list(shape), "c": c,
@@ -1053,6 +1079,9 @@ def _run_choice(case, ctx):
             (v_again,) = _compute([r2], "sync")
     except NotImplementedError as ex:
         ctx.unsupported(str(ex))
+        if multi:
+            # the documented refusal of a multi-block sample, seen on every API path / population kind / split axis
+            ctx.distinct("choice_noreplace_refused_paths", (_apiname(api), "int" if pop["kind"] == "int" else "array", split))
         return
     except Exception as ex:  # noqa: BLE001
         if ref_err is not None:
